@@ -592,3 +592,70 @@ def _is_deku_prim(info):
 def deku_from_reader_with_ctx(ex, st, info, args):
     rref, ctx = args
     return read_value(ex, st, rref, info['selfty'], ctx, lambda st2, r: _res(r))
+
+
+# ------------------------------------------------------------------------------------ scheduled reader (C19)
+def sched_cursor(data_ref, shorts, intrs):
+    """A Read+Seek over a byte buffer that may return short reads and transient Interrupted errors:
+    (data, pos, remaining short-read budget, remaining interrupt budget)"""
+    return Struct('SchedCursor', (data_ref, Int('u64', 0), Opaque('budget', shorts), Opaque('budget', intrs)))
+
+
+def sched_read(ex, st, info, args):
+    cref, bref = args
+    cur = ex.read_ref(st, cref)
+    data = ex.elems_of(ex.read_ref(st, cur.f[0]))
+    buf = ex.read_ref(st, bref)
+    pos = concrete_usize(cur.f[1], 'cursor position')
+    shorts, intrs = cur.f[2].p, cur.f[3].p
+    start = min(pos, len(data))
+    full = min(len(buf.e), len(data) - start)
+    call = st.env.get('sched_calls', 0)
+    st.env['sched_calls'] = call + 1
+
+    def do_read(n, sh, it):
+        def th(st2):
+            c2 = ex.read_ref(st2, cref)
+            b2 = ex.read_ref(st2, bref)
+            if n:
+                ex.write_ref(st2, bref, type(b2)(tuple(data[start:start + n]) + tuple(b2.e[n:])))
+            ex.write_ref(st2, cref, Struct('SchedCursor', (c2.f[0], Int('u64', pos + n), Opaque('budget', sh), Opaque('budget', it))))
+            ev = st2.env.get('sched_events', ())
+            if n != full:
+                st2.env['sched_events'] = ev + (('short', call, n, full),)
+            return mk_ok(Int('usize', n))
+        return th
+
+    def do_intr(st2):
+        c2 = ex.read_ref(st2, cref)
+        ex.write_ref(st2, cref, Struct('SchedCursor', (c2.f[0], c2.f[1], c2.f[2], Opaque('budget', intrs - 1))))
+        st2.env['sched_events'] = st2.env.get('sched_events', ()) + (('interrupted', call, len(buf.e)),)
+        return mk_err(io_error('Interrupted'))
+    alts = [(True, do_read(full, shorts, intrs))]
+    if shorts > 0 and full > 1:
+        for n in range(1, full):
+            alts.append((True, do_read(n, shorts - 1, intrs)))
+    if intrs > 0 and len(buf.e) > 0:
+        alts.append((True, do_intr))
+    if len(alts) == 1:
+        return alts[0][1](st)
+    return Choices(alts)
+
+
+def sched_seek(ex, st, info, args):
+    cref, pos = args
+    cur = ex.read_ref(st, cref)
+    data = ex.elems_of(ex.read_ref(st, cur.f[0]))
+    if pos.variant == 'Start':
+        new = concrete_usize(pos.f[0])
+    else:
+        base = len(data) if pos.variant == 'End' else concrete_usize(cur.f[1])
+        new = base + pos.f[0].v
+        if new < 0:
+            return mk_err(io_error('InvalidInput'))
+    ex.write_ref(st, cref, Struct('SchedCursor', (cur.f[0], Int('u64', new), cur.f[2], cur.f[3])))
+    return mk_ok(Int('u64', new))
+
+
+B.dyn[('Read', 'read', 'SchedCursor')] = sched_read
+B.dyn[('Seek', 'seek', 'SchedCursor')] = sched_seek
